@@ -843,6 +843,15 @@ func init() {
 	})
 }
 
+// error types for the shape table: one that cannot be nil, one that can
+type c20ErrStruct struct{}
+
+func (c20ErrStruct) Error() string { return "struct error" }
+
+type c20ErrPtr struct{}
+
+func (*c20ErrPtr) Error() string { return "pointer error" }
+
 // c20Validation: names and function shapes at registration time.
 func c20Validation(c *explore.Chooser, x *explore.Ctx, _ int) {
 	names := []struct {
@@ -870,6 +879,9 @@ func c20Validation(c *explore.Chooser, x *explore.Ctx, _ int) {
 		{"func(int, ...OptionalInt) int", func(int, ...jtypes.OptionalInt) int { return 1 }, false},
 		{"func(OptionalInt, ...int) int", func(jtypes.OptionalInt, ...int) int { return 1 }, false},
 		{"func(...int) int", func(...int) int { return 1 }, true},
+		{"(func() int)(nil)", (func() int)(nil), false},
+		{"func() (int, c20ErrStruct)", func() (int, c20ErrStruct) { return 1, c20ErrStruct{} }, false},
+		{"func() (int, *c20ErrStruct)", func() (int, *c20ErrPtr) { return 1, nil }, true},
 	}
 	which := c.Choose(3)
 	switch which {
